@@ -124,11 +124,20 @@ def run(ctx):
     T = 4800
     cls = {}
     signbits = 0
-    for _ in range(T):
-        m = pc.random_clifford_map(1)
+    ensemble = [pc.random_clifford_map(1) for _ in range(T)]     # collected first, analysed afterwards: samples must not share storage
+    for m in ensemble:
         k = tuple(impl.ops_of(m))
         cls[k] = cls.get(k, 0) + 1
         signbits += int(m.ps[0] // 2)
+    for n_ in (1, 2, 3):
+        for name_, f_ in (('random_clifford_map', pc.random_clifford_map), ('random_pauli_map', pc.random_pauli_map),
+                          ('random_clifford_state', pc.random_clifford_state), ('random_clifford', lambda k: U.random_clifford(k))):
+            a_ = f_(n_)
+            va_ = np.array(a_.gs if hasattr(a_, 'gs') else a_).copy()
+            held = [f_(n_) for _ in range(4)]
+            if not np.array_equal(np.array(a_.gs if hasattr(a_, 'gs') else a_), va_):
+                ctx.fail(name_, 'a sampled object changed when later samples were drawn (samples share storage)', dict(N=n_))
+            ctx.case(('independent-samples', name_, n_), True)
     tol = hoeff(T, 24)
     ctx.count('stat:N1-classes')
     if len(cls) != 24 or any(abs(v - T / 24) > tol for v in cls.values()):
